@@ -129,6 +129,85 @@ class Prover:
         return None
 
     @staticmethod
+    def _randint(n: S):
+        """(low, high) of torch.randint(low, high, size) / randint(high, size) / keyword forms; low None = 0"""
+        pos = [a for a in n.args[1:] if not (isinstance(a, S) and a.op == "kw")]
+        kw = {a.args[0]: a.args[1] for a in n.args[1:] if isinstance(a, S) and a.op == "kw"}
+        lo = kw.get("low")
+        hi = kw.get("high")
+        scal = [a for a in pos if not (isinstance(a, S) and a.op in ("tuple", "list"))]
+        if "size" in kw or (pos and isinstance(pos[-1], S) and pos[-1].op in ("tuple", "list")):
+            pass
+        if hi is None:
+            if len(scal) >= 2:
+                lo, hi = scal[0], scal[1]
+            elif len(scal) == 1:
+                hi = scal[0]
+        elif lo is None and scal:
+            lo = scal[0]
+        return lo, hi
+
+    def _atom(self, n: S, mask):
+        """n when n is arithmetic that simplifies to a single atom (x + 1 - 1), else None"""
+        if n.op not in ("+", "-"):
+            return None
+        try:
+            p = nf.poly(self._demask(n, mask))
+        except Exception:
+            return None
+        if len(p.terms) == 1 and p.const_term() == 0:
+            (m, c), = p.terms.items()
+            if c == 1 and len(m) == 1 and m[0][1] == 1:
+                a = nf.Poly.ATOMS.get(m[0][0])
+                return a if isinstance(a, S) and a is not n else None
+        return None
+
+    def _diff_nonneg(self, big: S, small: S, mask) -> bool:
+        """poly(big) - poly(small) has only non-negative coefficients on monomials of non-negative atoms"""
+        try:
+            p = nf.poly(self._demask(self._w(big, mask), mask)) - nf.poly(self._demask(self._w(small, mask), mask))
+        except Exception:
+            return False
+        if len(p.terms) > 6:
+            return False
+        for m, c in p.terms.items():
+            if c < 0:
+                return False
+            for aid, _pw in m:
+                a = nf.Poly.ATOMS.get(aid)
+                if not isinstance(a, S) or not self.nonneg(a, mask):
+                    return False
+        return True
+
+    def _scaled_atom(self, n: S, mask):
+        """(c, X) when n normalises to c * X for a single atom X (power 1) and a rational c != 1"""
+        if n.op not in ("*", "/", "poly", "+", "-"):
+            return None
+        try:
+            p = nf.poly(self._demask(n, mask))
+        except Exception:
+            return None
+        if len(p.terms) != 1:
+            return None
+        (m, c), = p.terms.items()
+        if len(m) != 1 or m[0][1] != 1 or c == 1:
+            return None
+        a = nf.Poly.ATOMS.get(m[0][0])
+        return (c, a) if isinstance(a, S) else None
+
+    @staticmethod
+    def _simple(n: S) -> bool:
+        return n.op in ("selfattr", "const")
+
+    @staticmethod
+    def _round(n: S):
+        if n.op == "meth" and n.args[1] == "round" and len(n.args) == 2:
+            return n.args[0]
+        if nf._fn(n) == "torch.round" and len(n.args) == 2:
+            return n.args[1]
+        return None
+
+    @staticmethod
     def _depot_column(idx: S) -> bool:
         items = idx.args if idx.op == "tuple" else (idx,)
         return len(items) >= 1 and vg.is_const(items[-1], 0) and not isinstance(items[-1].args[0], bool)
@@ -149,6 +228,24 @@ class Prover:
             return True
         if fn in ("torch.full", "torch.full_like") and len(n.args) >= 3:
             return self.nonneg(n.args[2], mask)
+        if fn == "torch.randint":
+            lo, hi = self._randint(n)
+            return lo is None or self.nonneg(lo, mask)
+        if n.op == "%" and len(n.args) == 2:
+            # x % m lies in [0, m) for m > 0 (torch follows the sign of the divisor); m <= 0 is the caller's recorded assumption
+            why = self.slack_ok(self._w(n.args[1], mask), None)
+            if why:
+                if why not in self.assumptions:
+                    self.assumptions.append(why)
+                return True
+            return False
+        if n.op == "selfattr":
+            why = self.slack_ok(n, None)
+            if why:
+                if why not in self.assumptions:
+                    self.assumptions.append(why)
+                return True
+            return False
         if fn in ("torch.cat", "torch.stack", "torch.concat") and len(n.args) >= 2:
             items = nf._seq_items(n.args[1])
             return bool(items) and all(self.nonneg(x, mask) for x in items)
@@ -187,8 +284,17 @@ class Prover:
         n = self._w(n, mask)
         if n.op == "const":
             return isinstance(n.args[0], int) or (isinstance(n.args[0], float) and n.args[0].is_integer())
-        if self._trunc(n):
+        if self._trunc(n) or self._round(n) is not None or nf._fn(n) in ("torch.randint", "torch.arange"):
             return True
+        if nf._fn(n) in ("torch.full", "torch.full_like") and len(n.args) >= 3:
+            return self.integral(n.args[2], mask)
+        if n.op == "selfattr":
+            why = self.slack_ok(n, "int")
+            if why:
+                if why not in self.assumptions:
+                    self.assumptions.append(why)
+                return True
+            return False
         sc = self._scaled(n)
         if sc:                      # integer multiples of one common unit
             self.factors.append(sc[1])
@@ -223,6 +329,36 @@ class Prover:
         if self._same(n, L, mask):
             return True
         d = depth + 1
+        Lw = self._w(L, mask)
+        if nf._fn(Lw) in ("torch.full", "torch.full_like") and len(Lw.args) >= 3:
+            return self.ge(n, Lw.args[2], mask, d)
+        mmL = self._minmax(Lw)
+        if mmL and n.op not in ("phi", "store"):
+            return (all if mmL[0] == "max" else any)(self.ge(n, x, mask, d) for x in mmL[1])
+        if n.op not in ("phi", "store") and self._diff_nonneg(n, L, mask):
+            return True
+        if Lw.op == "-" and len(Lw.args) == 2 and n.op not in ("phi", "store") and self.nonneg(Lw.args[1], mask):
+            saved = len(self.trace)
+            if self.ge(n, Lw.args[0], mask, d):    # L = a - k <= a
+                return True
+            del self.trace[saved:]
+        if self._simple(n) and not self._simple(Lw) and Lw.op not in ("phi", "store"):
+            return self.le(L, n, mask, d)
+        if self._simple(n) and self._simple(Lw):
+            why = self.slack_ok(n, Lw)
+            if why:
+                if why not in self.assumptions:
+                    self.assumptions.append(why)
+                return True
+        sa = self._scaled_atom(n, mask)
+        if sa and sa[0] >= 1 and self.nonneg(sa[1], mask) and self.ge(sa[1], L, mask, d):
+            return True                           # c * X >= X >= L for c >= 1, X >= 0
+        rn = self._round(n)
+        if rn is not None:
+            rl = self._round(Lw)
+            if rl is not None and self.ge(rn, rl, mask, d):
+                return True                       # rounding is monotone
+            return self.integral(L, mask) and self.ge(rn, L, mask, d)
         tl0 = self._trunc(self._w(L, mask))
         if tl0 and tl0[0] in ("int", "floor") and n.op not in ("phi", "store") and self.nonneg(tl0[1], mask):
             # L = int(L') <= L' for a non-negative L': a bound by L' is stronger
@@ -257,6 +393,15 @@ class Prover:
             if t[0] == "ceil" and self.ge(t[1], L, mask, d):
                 return True          # ceil raises
             return False
+        fn = nf._fn(n)
+        if fn == "torch.randint":
+            lo, hi = self._randint(n)
+            return lo is not None and self.ge(lo, L, mask, d)
+        if fn in ("torch.full", "torch.full_like") and len(n.args) >= 3:
+            return self.ge(n.args[2], L, mask, d)
+        at = self._atom(n, mask)
+        if at is not None:
+            return self.ge(at, L, mask, d)
         if n.op == "+" and len(n.args) == 2:
             a, b = n.args
             if (self.ge(a, L, mask, d) and self.nonneg(b, mask)) or (self.ge(b, L, mask, d) and self.nonneg(a, mask)):
@@ -271,6 +416,38 @@ class Prover:
         if self._same(n, U, mask):
             return True
         d = depth + 1
+        Uw = self._w(U, mask)
+        if nf._fn(Uw) in ("torch.full", "torch.full_like") and len(Uw.args) >= 3:
+            return self.le(n, Uw.args[2], mask, d)
+        mmU = self._minmax(Uw)
+        if mmU and n.op not in ("phi", "store"):
+            return (all if mmU[0] == "min" else any)(self.le(n, x, mask, d) for x in mmU[1])
+        if n.op not in ("phi", "store") and self._diff_nonneg(U, n, mask):
+            return True
+        if Uw.op == "+" and len(Uw.args) == 2 and n.op not in ("phi", "store"):
+            for a, k in (Uw.args, Uw.args[::-1]):
+                if self.nonneg(k, mask):
+                    saved = len(self.trace)
+                    if self.le(n, a, mask, d):     # U = a + k >= a
+                        return True
+                    del self.trace[saved:]
+        if self._simple(n) and not self._simple(Uw) and Uw.op not in ("phi", "store"):
+            return self.ge(U, n, mask, d)
+        if self._simple(n) and self._simple(Uw):
+            why = self.slack_ok(Uw, n)
+            if why:
+                if why not in self.assumptions:
+                    self.assumptions.append(why)
+                return True
+        sa = self._scaled_atom(n, mask)
+        if sa and 0 < sa[0] <= 1 and self.nonneg(sa[1], mask) and self.le(sa[1], U, mask, d):
+            return True                           # c * X <= X <= U for 0 < c <= 1, X >= 0
+        rn = self._round(n)
+        if rn is not None:
+            ru = self._round(Uw)
+            if ru is not None and self.le(rn, ru, mask, d):
+                return True
+            return self.integral(U, mask) and self.le(rn, U, mask, d)
         if n.op == "phi":
             return all(self.le(x, U, mask, d) for x in n.args[1:])
         if n.op == "store":
@@ -299,6 +476,24 @@ class Prover:
                 exact = self._trunc(inner) is not None       # int() of an integer-valued tensor changes nothing
                 return self.le(t[1], U, mask, d) and (exact or self.nonneg(t[1], mask))
             return False
+        fn = nf._fn(n)
+        if fn == "torch.randint":
+            lo, hi = self._randint(n)       # values lo .. hi - 1
+            return hi is not None and self.le(vg.mk("-", hi, vg.mk("const", 1)), U, mask, d)
+        if fn in ("torch.full", "torch.full_like") and len(n.args) >= 3:
+            return self.le(n.args[2], U, mask, d)
+        at = self._atom(n, mask)
+        if at is not None:
+            return self.le(at, U, mask, d)
+        if n.op == "+" and len(n.args) == 2:
+            # residue shifted into [l, h): x % (h - l) + l <= h - 1
+            for a, b in (n.args, n.args[::-1]):
+                a = self._w(a, mask)
+                if a.op == "%" and len(a.args) == 2:
+                    m = self._w(a.args[1], mask)
+                    if m.op == "-" and len(m.args) == 2 and self._same(m.args[1], b, mask) and self.nonneg(a, mask):
+                        if self.le(vg.mk("-", m.args[0], vg.mk("const", 1)), U, mask, d):
+                            return True
         if n.op == "+" and len(n.args) == 2:
             # convex combination a + (U - a) * t, t in [0, 1], U - a >= 0
             for a, b in (n.args, n.args[::-1]):
